@@ -70,6 +70,10 @@ func (w *FindRules) Do(ctx *Context, loc *Location) {
 	} else {
 		embed, given := w.Event["evaluate!"]
 		if given {
+			if !loc.Enabled(ctx) {
+				w.Disposition = &Condition{"Location is disabled.", "unknown"}
+				return
+			}
 			embedded = true
 			m, ok := embed.(map[string]interface{})
 			if !ok {
